@@ -6,6 +6,7 @@ import (
 	"context"
 	"fmt"
 	"io"
+	"runtime"
 	"sort"
 	"sync"
 	"time"
@@ -400,6 +401,91 @@ func runDomainInject(c tcase, target int, serialSkip [][]bool, serial bool) (obs
 		obs.Err = "close2: " + err.Error()
 	}
 	return
+}
+
+// runDomainFree: the scenario's threads run as free goroutines on a bare domain.DB (no injection),
+// released together with a small per-thread skew of runtime.Gosched calls.
+func runDomainFree(c tcase, skew int) (obs runObs) {
+	ctx := context.Background()
+	fs := xfs.NewMem()
+	db, err := openDomain(fs, c)
+	if err != nil {
+		obs.Err = "open: " + err.Error()
+		return
+	}
+	for _, o := range c.Setup {
+		obs.Setup = append(obs.Setup, classify(domOp(ctx, db, c, o, nil)))
+	}
+	obs.Outcomes = make([][]string, len(c.Threads))
+	var pmu sync.Mutex
+	var wg sync.WaitGroup
+	start := make(chan struct{})
+	for ti := range c.Threads {
+		wg.Add(1)
+		go func(ti int) {
+			defer wg.Done()
+			defer func() {
+				if r := recover(); r != nil {
+					pmu.Lock()
+					obs.Panic = fmt.Sprint(r)
+					pmu.Unlock()
+				}
+			}()
+			<-start
+			for k := 0; k < (skew>>(3*uint(ti)))&7; k++ {
+				runtime.Gosched()
+			}
+			outs := []string{}
+			for _, o := range c.Threads[ti] {
+				outs = append(outs, classify(domOp(ctx, db, c, o, nil)))
+			}
+			pmu.Lock()
+			obs.Outcomes[ti] = outs
+			pmu.Unlock()
+		}(ti)
+	}
+	close(start)
+	done := make(chan struct{})
+	go func() { wg.Wait(); close(done) }()
+	select {
+	case <-done:
+	case <-time.After(90 * time.Second):
+		obs.Stall = true
+		return
+	}
+	obs.Mem = domObserve(ctx, db)
+	if err := db.Close(); err != nil {
+		obs.Err = "close: " + err.Error()
+		return
+	}
+	db2, err := openDomain(fs, c)
+	if err != nil {
+		obs.Err = "reopen: " + err.Error()
+		return
+	}
+	obs.Reopen = domObserve(ctx, db2)
+	if err := db2.Close(); err != nil {
+		obs.Err = "close2: " + err.Error()
+	}
+	return
+}
+
+// runStressCase: the scenario (pairwise independent operations, every one expected to succeed) is
+// repeated c.Iters times with free-running threads; the run stops at the first repetition whose
+// outcome (operation results, content in memory, content after close + reopen) is not the serial one.
+func runStressCase(c tcase) result {
+	r := result{ID: c.ID}
+	r.Serial, _ = runDomainInject(c, -1, nil, true)
+	r.Order = []int{0, 1}
+	for it := 0; it < c.Iters; it++ {
+		r.Conc = runDomainFree(c, it)
+		r.Iters = it + 1
+		if r.Conc.Stall || r.Conc.Panic != "" || r.Conc.Err != "" || !serialExplains(r.Conc, r.Serial) ||
+			!sameObs(r.Conc.Mem, r.Conc.Reopen) {
+			break
+		}
+	}
+	return r
 }
 
 // runInjectCase: dry run to count thread A's I/O points, injected run at floor(kfrac*points),
